@@ -2,8 +2,8 @@ import Pbc.Extract.Attr
 /-
   Closed-form bit-vector specifications of the leaf functions.  The extracted C code
   (Pbc.Extract.*, regenerated from the source on every run) is proved equal to these by
-  `bv_decide`; `Pbc.Refine.Bridge` relates them to the list/Nat-level functions of `Pbc.Wire`
-  once and for all (kernel-only proofs that do not depend on the C source).
+  `bv_decide`; `Pbc.Refine.Bridge` relates them to the list/Nat-level functions of `Pbc.Wire` and `Pbc.Model`
+  once and for all (proofs that do not depend on the C source).
 -/
 namespace Pbc.BvSpec
 
